@@ -108,7 +108,7 @@ func genC16(t *rapid.T) interface{} {
 	if thorough() {
 		maxd = 6
 	}
-	doc := rapid.SampledFrom([]string{"", "", " ", "\n", "\r\n", "\t"}).Draw(t, "lead") + genJSON(t, rapid.IntRange(0, maxd).Draw(t, "depth")) + rapid.SampledFrom([]string{"", "", " ", "\n"}).Draw(t, "trail")
+	doc := rapid.SampledFrom([]string{"", "", " ", "\n", "\r\n", "\t"}).Draw(t, "lead") + genJSON(t, rapid.IntRange(0, maxd).Draw(t, "depth")) + rapid.SampledFrom([]string{"", "", " ", "\n", "\r\n", "\r\n\r\n", " \t"}).Draw(t, "trail")
 	c := &C16Case{Doc: []byte(doc), Subset: true}
 	if rapid.IntRange(0, 3).Draw(t, "mut") == 0 && len(doc) > 0 {
 		c.Subset = false
@@ -277,6 +277,13 @@ func checkJSONDoc(doc string, subset bool, st *Stats) (err error) {
 		f := text.NewFile("f", []byte(doc))
 		ctx := parsley.NewContext(parsley.NewFileSet(f), text.NewReader(f))
 		got, gerr = parsley.Evaluate(ctx, jsonP)
+		// the same loaded file evaluated again (fresh context and reader) must give the same answer:
+		// evaluating must not consume or rewrite the document
+		ctx2 := parsley.NewContext(parsley.NewFileSet(f), text.NewReader(f))
+		got2, gerr2 := parsley.Evaluate(ctx2, jsonP)
+		if (gerr == nil) != (gerr2 == nil) || (gerr == nil && !reflect.DeepEqual(got, got2)) || (gerr != nil && gerr.Error() != gerr2.Error()) {
+			err = fmt.Errorf("a second evaluation of the same loaded file differs: first %#v / %v, second %#v / %v", got, gerr, got2, gerr2)
+		}
 	}()
 	if err != nil {
 		return err
